@@ -1,6 +1,7 @@
 import ElfiVerif.Drive.Util
 import ElfiVerif.Model.Npy
 import ElfiVerif.Model.BufIO
+import ElfiVerif.Model.NpyRebatch
 
 namespace ElfiVerif.Drive.C06
 open Lean ElfiVerif.Drive ElfiVerif.Npy
@@ -70,6 +71,35 @@ def ioH : H := fun j => do
   pure (Json.mkObj [("disciplined", Json.bool (ElfiVerif.BufIO.disciplined false evs)),
                     ("steps", Json.num (JsonNumber.fromNat (ElfiVerif.BufIO.stepsOfEvs evs).length))])
 
-def handlers : List (String × H) := [("C06.run", runH), ("C06.io", ioH)]
+/-- {"rows":[…],"b":n,"ops":[…]} : a flushed file holding `rows`, reopened with batch size `b` (`Store.openB`), then the
+    history.  Answers with what the MODEL store does (per op: rejected?, exposed batches, what numpy would load) and
+    with what the reference semantics of theorem `rebatch_refines` says (`specRunT`). -/
+def rebatchH : H := fun j => do
+  let rows ← getNatList j "rows"
+  let b ← getNat j "b"
+  let ops ← (← getArr j "ops").toList.mapM opOfJson
+  let d0 : Disk := ⟨some rows.length, rows⟩
+  match Store.openB d0 b with
+  | .error _ => throw "open failed"
+  | .ok s0 =>
+    let rec go (s : Store) (d : Disk) (ops : List Op) (acc : Array Json) : Array Json :=
+      match ops with
+      | [] => acc
+      | op :: rest =>
+        let (e, st, s1) := s.step false d op
+        let d' := d.applyAll st
+        go s1 d' rest (acc.push (Json.mkObj [("err", Json.bool e.isSome),
+          ("content", Json.arr ((s1.content d').map natsToJson).toArray), ("load", loadJson d')]))
+    let spec := specRunT (chunks b rows) (decide (rows.length % b ≠ 0)) ops
+    pure (Json.mkObj [
+      ("view", Json.arr ((s0.content d0).map natsToJson).toArray),
+      ("chunks", Json.arr ((chunks b rows).map natsToJson).toArray),
+      ("tail", natsToJson (tailRows b rows)),
+      ("model", Json.arr (go s0 d0 ops #[])),
+      ("spec", Json.arr (spec.map (fun r => Json.mkObj [("err", Json.bool r.1),
+          ("content", Json.arr (r.2.map natsToJson).toArray)])).toArray),
+      ("opsT", Json.bool (ops.all (opT b)))])
+
+def handlers : List (String × H) := [("C06.run", runH), ("C06.io", ioH), ("C06.rebatch", rebatchH)]
 
 end ElfiVerif.Drive.C06
